@@ -112,6 +112,10 @@ fn run_checksum(v: &Value) -> Vec<String> {
             let round = r.as_ref().ok().map(|c| { let t = toml::to_string(&std::collections::BTreeMap::from([("c", c)])).unwrap(); toml::from_str::<std::collections::BTreeMap<String, Checksum<Sha512>>>(&t).ok().is_some_and(|m| m["c"] == *c) });
             (r.is_ok(), round)
         };
+        // the serde entry point (the way checksums arrive from an inventory file) agrees with FromStr
+        let doc = format!("c = {}\n", toml::Value::String(s.clone()));
+        let via_serde = if algo == "sha256" { toml::from_str::<std::collections::BTreeMap<String, Checksum<Sha256>>>(&doc).is_ok() } else { toml::from_str::<std::collections::BTreeMap<String, Checksum<Sha512>>>(&doc).is_ok() };
+        if via_serde != got { p.push(format!("Checksum<{algo}>: {s:?} is {} by FromStr but {} when deserialised", if got { "accepted" } else { "rejected" }, if via_serde { "accepted" } else { "rejected" })); }
         let want = want && !degenerate || (want && degenerate);
         if got != want { p.push(format!("Checksum<{algo}>: {s:?} is {} but must be {}", if got { "accepted" } else { "rejected" }, if want { "accepted" } else { "rejected" })); }
         if round == Some(false) { p.push(format!("Checksum<{algo}>: {s:?} does not survive serialise/parse")); }
